@@ -282,6 +282,118 @@ pub fn mutated_frame_strategy() -> impl Strategy<Value = MutCase> {
     })
 }
 
+
+// ------------------------------------------------------------------ MSO: the one packet whose encoder moves an index (TextStart)
+#[derive(Clone, Debug)]
+pub struct MsoCase {
+    pub compressed: bool,
+    pub msg: String,
+    /// TextStart as a character count into msg (converted to the byte index the public field wants)
+    pub start_chars: usize,
+}
+
+pub struct MsoTextStart;
+impl Part for MsoTextStart {
+    type Case = MsoCase;
+    fn name(&self) -> &'static str {
+        "mso-text-start"
+    }
+    fn check(&self, c: &MsoCase, ev: &mut Local) -> Result<(), Fail> {
+        let mode = if c.compressed { Mode::Compressed } else { Mode::Uncompressed };
+        let byte_ix = c.msg.char_indices().nth(c.start_chars).map(|(i, _)| i).unwrap_or(c.msg.len());
+        if byte_ix > 255 {
+            ev.class("text-start-beyond-u8");
+            return Ok(());
+        }
+        let mut m = insim::insim::Mso::default();
+        m.msg = c.msg.clone();
+        m.textstart = byte_ix as u8;
+        m.usertype = insim::insim::MsoUserType::User;
+        let p = Packet::Mso(m);
+        match judge_encode(&p, &mode, Origin::UserBuilt)? {
+            Some(f) => {
+                ev.class("emitted");
+                if f.len() == 8 + 128 {
+                    ev.class("message-fills-128-bytes");
+                }
+                if f[7] as usize != byte_ix {
+                    ev.class("text-start-moved-by-encoding");
+                }
+                if f[7] as usize >= 124 {
+                    ev.class("text-start-in-the-last-word-or-beyond");
+                }
+            },
+            None => ev.class("refused"),
+        }
+        ev.nontrivial(&(c.compressed, &c.msg, c.start_chars));
+        if ev.wants_sample() && !c.msg.is_ascii() {
+            ev.sample(|| json!({"mode": mode_name(&mode), "chars": c.msg.chars().count(), "start_chars": c.start_chars, "msg": c.msg.chars().take(16).collect::<String>()}));
+        }
+        Ok(())
+    }
+    fn to_json(&self, c: &MsoCase) -> Value {
+        json!({"compressed": c.compressed, "msg": c.msg, "start_chars": c.start_chars})
+    }
+    fn from_json(&self, v: &Value) -> Option<MsoCase> {
+        Some(MsoCase { compressed: v.get("compressed")?.as_bool()?, msg: v.get("msg")?.as_str()?.to_string(), start_chars: v.get("start_chars")?.as_u64()? as usize })
+    }
+}
+
+/// messages around the 128-byte limit in multi-codepage text, with the text start anywhere (weighted towards the end)
+pub fn mso_case_strategy() -> impl Strategy<Value = MsoCase> {
+    let tables = crate::refs::cp::tables();
+    let ch = prop_oneof![
+        3 => (0x20u8..0x7F).prop_map(|b| b as char),
+        4 => (0..tables.len(), any::<prop::sample::Index>()).prop_map(move |(t, ix)| {
+            let e = &tables[t].entries;
+            e[ix.index(e.len())].1
+        }),
+    ];
+    (any::<bool>(), proptest::collection::vec(ch, 0..140), any::<prop::sample::Index>(), 0usize..4).prop_map(|(compressed, v, ix, place)| {
+        let n = v.len();
+        let start_chars = match place {
+            0 => ix.index(n + 1),
+            1 => n,
+            2 => n.saturating_sub(ix.index(4)),
+            _ => n / 2 + ix.index(n / 2 + 1),
+        };
+        MsoCase { compressed, msg: v.into_iter().collect(), start_chars }
+    })
+}
+
+/// IS_MSO frames: any TextStart byte, message bytes made of ASCII runs, codepage markers, double-byte pairs and lone high bytes
+pub fn mso_frame_strategy() -> impl Strategy<Value = MutCase> {
+    let seg = prop_oneof![
+        3 => proptest::collection::vec(0x20u8..0x7F, 1..6),
+        2 => (0usize..13).prop_map(|k| vec![b'^', b"LGCETBJHSK8^0"[k]]),
+        3 => (0x81u8..0xFF, 0x40u8..0xFF).prop_map(|(a, b)| vec![a, b]),
+        1 => (0x80u8..=0xFF).prop_map(|a| vec![a]),
+    ];
+    (any::<bool>(), proptest::collection::vec(seg, 0..48), 0usize..5, any::<u8>(), any::<bool>()).prop_map(|(compressed, segs, place, ts, terminate)| {
+        let mut msg: Vec<u8> = segs.into_iter().flatten().collect();
+        msg.truncate(128);
+        if terminate && msg.len() > 127 {
+            msg.truncate(127);
+        }
+        let content = msg.len();
+        while msg.len() % 4 != 0 || (terminate && msg.len() == content) {
+            msg.push(0);
+        }
+        msg.truncate(128);
+        let textstart = match place {
+            0 => 0,
+            1 => ts,
+            2 => (content as u8).saturating_sub(ts % 6),
+            3 => (content as u8).saturating_add(ts % 4),
+            _ => ts % (content as u8).max(1),
+        };
+        let len = 8 + msg.len();
+        let mut f = vec![if compressed { (len / 4) as u8 } else { len as u8 }, 11, 0, 0, 1, 0, 1, textstart];
+        f.extend_from_slice(&msg);
+        MutCase { compressed, frame: f }
+    })
+}
+
 /// an IS_VER frame around an arbitrary version text (cut to 8 bytes on a character boundary)
 pub fn ver_frame_strategy() -> impl Strategy<Value = MutCase> {
     let text = prop_oneof![
@@ -308,7 +420,7 @@ pub fn ver_frame_strategy() -> impl Strategy<Value = MutCase> {
 }
 
 pub fn parts() -> Vec<Box<dyn DynPart>> {
-    vec![Box::new(Counts), Box::new(TextLengths), Box::new(FromImages), Box::new(AcceptedFrames)]
+    vec![Box::new(Counts), Box::new(TextLengths), Box::new(FromImages), Box::new(AcceptedFrames), Box::new(MsoTextStart)]
 }
 
 pub fn run(run: &mut Run) {
@@ -321,7 +433,9 @@ pub fn run(run: &mut Run) {
         for user-built packets (refused loudly); for packets obtained by decoding a panic is a violation. Generators: (1) complete: every \
         element count 0..=255 for the 7 counted kinds x 2 modes; (2) complete: ASCII text of every length 0..=2N in each of the 30 text \
         fields x 2 modes, plus random multi-byte text; (3) packets decoded from conformant frames of all 73 kinds, re-encoded in both modes; \
-        (4) packets decoded from mutated / extended / high-byte-filled frames that the decoder accepted. Non-trivial = every case (each one \
+        (4) packets decoded from mutated / extended / high-byte-filled frames that the decoder accepted, plus IS_VER frames around free-form \
+        version text and IS_MSO frames with any TextStart over codepage-switching text; (5) hand-built MSO with TextStart at every character \
+        position of multi-codepage messages around the 128-byte limit. Non-trivial = every case (each one \
         exercises the encoder on a distinct packet)."
         .into();
     run.assumptions = vec!["element size / header length / count offset of the counted kinds are taken from the specification transcription".into()];
@@ -375,4 +489,10 @@ pub fn run(run: &mut Run) {
     // (4b) IS_VER frames whose 8-byte version text is free-form (digits only, long numbers, odd letters, Unicode digits)
     let n = run.budget(60_000, 3_000_000);
     run.prop(&AcceptedFrames, ver_frame_strategy(), n);
+    // (4c) IS_MSO frames: the only decoder that re-computes an index (TextStart) from decoded text
+    let n = run.budget(100_000, 5_000_000);
+    run.prop(&AcceptedFrames, mso_frame_strategy(), n);
+    // (5) hand-built MSO with a text start, messages around the 128-byte limit
+    let n = run.budget(100_000, 5_000_000);
+    run.prop(&MsoTextStart, mso_case_strategy(), n);
 }
